@@ -83,7 +83,8 @@ class DIP:
         while len(self.lines)>0:
             line = self.lines.pop(0)
             # Group block structures
-            if '"""' in line['code']:
+            # a block opens where a line holds an unpaired """ that is not part of a comment
+            if line['code'].count('"""')%2==1 and '#' not in line['code'].split('"""')[0]:
                 block = []
                 while len(self.lines)>0:
                     subline = self.lines.pop(0)
